@@ -1,5 +1,5 @@
 (* C02 — piece/file geometry.  Property theorems only. *)
-From RainV Require Import Lib Geometry BlocksProofs PiecesProofs.
+From RainV Require Import Lib Geometry SectionIO BlocksProofs PiecesProofs SectionIOProofs RoundtripProofs.
 
 (* For every well-formed info (what NewInfo accepts, C06) NewPieces terminates without a panic
    within the stated fuel, returns exactly n pieces, their sections in order chain through the
@@ -39,3 +39,24 @@ Theorem C02_blocks_tile_refuted_on_pinned_code :
     ~ (forall x, covered bl x <-> nonpad_at l 0 x).
 Proof. exact blocks_tile_refuted. Qed.
 Print Assumptions C02_blocks_tile_refuted_on_pinned_code.
+
+(* Write-then-read round trip, for every accepted info, every piece, every storage of the right
+   file sizes, every full-length buffer and every in-range (off, k): the bytes read back are
+   buf[off, off+k) with padding positions zero; files that are not non-padding files of the
+   piece (in particular all padding files) are left untouched. *)
+Theorem C02_write_read_roundtrip : forall files PL n L st,
+  wf_info files PL n L -> storage_matches st files ->
+  exists ps, new_pieces files PL L n = Ok ps /\
+    forall p buf off k, In p ps -> zlen buf = plength p -> 0 < plength p ->
+      0 <= off -> 0 <= k -> off + k <= plength p ->
+      exists st', write_secs st (psecs p) buf = Ok st' /\
+        read_at st' (psecs p) off k = Ok (slice (mask (psecs p) buf) off k, 0) /\
+        (forall i, ~ In i (nonpad_files (psecs p)) -> file_of st' i = file_of st i).
+Proof. exact pieces_roundtrip. Qed.
+Print Assumptions C02_write_read_roundtrip.
+
+(* the exact domain on which ReadAt panics: an offset beyond the end of the piece *)
+Theorem C02_read_beyond_piece_is_the_only_panic : forall st p off, secs_wf st p ->
+  sum_slen p < off -> skip_loop p 0 off = None.
+Proof. intros st p off H Hlt. apply (read_at_beyond_crashes st p 0 off H). lia. Qed.
+Print Assumptions C02_read_beyond_piece_is_the_only_panic.
